@@ -535,6 +535,56 @@ What the eighth round changed:
 """
 
 
+INTRO9 = """### 9.4i Ninth round: twelve more defective refactorings, in the idioms of the eighth round
+
+Four more sub-agents (hedger.py; the instruments; features and the Black-Scholes modules; functional.py, the criteria, `ww`, `bisect`) wrote
+three refactorings each that carry one defect, restricted to the idioms of §9.4h (decorators, context managers, try/except/else, lazily
+consumed generators, `reduce` pipelines, memos, template methods, helper objects, class-level tables). 12 candidates, all re-confirmed
+(`seeded/Hnn-k/`). First run against the checks as they stood after §9.4h: 8 reported by the check of the property the agent named, 2 only
+by another property's check (H02-1, H04-3), 2 ended in analysis errors in every check that follows the changed code (H01-3, H02-3).
+
+| seed | change (one line, from the agent's meta.json) | verdict | checks that report it | first rule |
+|---|---|---|---|---|
+"""
+
+CHANGES9 = """
+What the ninth round changed, and what it left:
+
+* **A comprehension over a generator object did not step the generator** (H01-3: `[criterion(p, z) for p, z in islice(runs, n_times)]` where
+  `runs` simulates ONCE, through `for _ in itertools.repeat(derivative.simulate(...))`): the comprehension treated the `islice` object as
+  an opaque sequence, the generator body was never run, and seven checks stopped. Comprehensions over generator objects are now the loop
+  that steps them, `for x in itertools.repeat(v)` inside a generator is `while True` with `v` evaluated once; C15.R6 reports the trace
+  `simulate portfolio criterion portfolio criterion portfolio criterion` for `n_times=3`.
+* **A memo keyed without the dtype, kept in `self.__dict__`** (H02-1, the `__dict__` twin of F04-2): no attribute store, so neither the
+  sound-memo test nor the hit path saw it; C02 / C12 / C13 / C16 reported the store, C17 - the property the agent named - did not. C17.R6
+  now inspects what the feature readers remember: a `(key, value)` pair whose value is cast like a tensor whose dtype the key does not
+  record.
+* **Left as found**: H04-3 (the Whalley-Wilmott band constants memoised under `(id(derivative), a)`, without the cost) is reported by C16.R3m
+  ("what one call leaves on the model is read by the next") and not by C20, whose rules evaluate `forward` on a fresh module; the agent lists
+  C16 as the second property it breaks. H02-3 (`payoff()` as `reduce` over a memoised tuple `(payoff_fn, *self.clauses())`, the memo keyed by
+  the clause NAMES) ends every check that follows `payoff()` in an analysis error - a sequence of unknown length unpacked into a tuple
+  display has no model - so there is no verdict on it (exit 2), neither a miss nor a catch; C12.R3 judges every path of the three-clause
+  fallback now instead of demanding one.
+
+"""
+
+
+def round9():
+    r_ = rows_for(r"H\d\d-\d")
+    if not r_:
+        return
+    first9 = {"H01-3": "analysis errors in C02, C03, C06, C14, C15, C16, C17", "H02-1": "reported by C02, C12, C13, C16 only", "H02-3": "analysis errors in 10 checks (unchanged: no verdict)"}
+    t_ = "".join(f"| {sid} ({prop}) | {what} | {verdict}{' (first run: ' + first9[sid] + ')' if sid in first9 else ''} | {fired} | {rule} |\n" for sid, prop, what, verdict, fired, rule in r_)
+    p = V / "DESIGN.md"
+    s = p.read_text()
+    a = s.find("### 9.4i ")
+    b = s.find("### 9.5 ")
+    if a == -1:
+        a = b
+    p.write_text(s[:a] + INTRO9 + t_ + CHANGES9 + s[b:])
+    print(f"### 9.4i written: {len(r_)} rows")
+
+
 def round8():
     res = V / "refactorings" / "RESULTS.md"
     rows8 = []
@@ -551,7 +601,7 @@ def round8():
     p = V / "DESIGN.md"
     s = p.read_text()
     a = s.find("### 9.4h ")
-    b = s.find("### 9.5 ")
+    b = min(x for x in (s.find("### 9.4i "), s.find("### 9.5 ")) if x != -1)
     if a == -1:
         a = b
     p.write_text(s[:a] + INTRO8 + t_ + CHANGES8 + s[b:])
@@ -573,3 +623,4 @@ if __name__ == "__main__":
     refactorings()
     round7()
     round8()
+    round9()
